@@ -1370,15 +1370,24 @@ GUARD_TYPES = {
 }
 
 
+GUARD_CONTAINERS = ('std::option::Option', 'std::result::Result', 'tuple', 'std::boxed::Box', 'std::vec::Vec')
+
+
 def guard_class(ty):
-    """(lock crate, mode, protected type string) if ty is a guard type"""
+    """(lock crate, mode, protected type string) if ty is a guard type, or a plain container (Option/Result/tuple/Box/Vec)
+    of one (e.g. the Option<RwLockReadGuard<Blob>> returned by Safe::read_active_blob)"""
     h = ty.get('h')
     g = GUARD_TYPES.get(h)
-    if not g:
-        return None
-    args = [a for a in ty.get('a', []) if not a.startswith("'")]
-    prot = args[0] if args else '()'
-    return (g[0], g[1], norm_ty(prot))
+    if g:
+        args = [a for a in ty.get('a', []) if not a.startswith("'")]
+        prot = args[0] if args else '()'
+        return (g[0], g[1], norm_ty(prot))
+    if h in GUARD_CONTAINERS:
+        for (name, args) in generic_apps(ty.get('s', '')):
+            g = GUARD_TYPES.get(name)
+            if g:
+                return (g[0], g[1], norm_ty(args[0]) if args else '()')
+    return None
 
 
 def norm_ty(s):
